@@ -96,7 +96,8 @@ static long c39_strtol(const char *s, char **endp, int base)
 /* ---- evutil_parse_sockaddr_port contract ---- */
 #define C39_PSP_MAX 4
 static const char *c39_psp_arg[C39_PSP_MAX]; static int c39_psp_ok[C39_PSP_MAX]; static int c39_psp_calls;
-static struct sockaddr_storage c39_psp_out[C39_PSP_MAX]; static int c39_psp_len[C39_PSP_MAX];
+union c39_sa { struct sockaddr sa; struct sockaddr_in sin; struct sockaddr_in6 sin6; };
+static union c39_sa c39_psp_out[C39_PSP_MAX]; static int c39_psp_len[C39_PSP_MAX];
 int evutil_parse_sockaddr_port(const char *str, struct sockaddr *out, int *outlen)
 {
 #ifdef C39_AF     /* outcome fixed per obligation (0 fails, 1 IPv4, 2 IPv6): keeps the address length a constant for symex */
@@ -108,14 +109,14 @@ int evutil_parse_sockaddr_port(const char *str, struct sockaddr *out, int *outle
 	c39_psp_calls++;
 	c39_psp_arg[i] = str; c39_psp_ok[i] = 0;
 	if (kind == 0) return -1;
-	memset(&c39_psp_out[i], 0, sizeof(c39_psp_out[i]));
 	if (kind == 1) {
 		struct sockaddr_in sin;
 		if (*outlen < (int)sizeof(sin)) return -1;
 		memset(&sin, 0, sizeof(sin));
 		sin.sin_family = AF_INET; sin.sin_port = vp_u16(); sin.sin_addr.s_addr = vp_u32();
-		memcpy(out, &sin, sizeof(sin)); *outlen = sizeof(sin);
-		memcpy(&c39_psp_out[i], &sin, sizeof(sin)); c39_psp_len[i] = sizeof(sin);
+		/* (typed stores: a byte-wise copy into the caller's 128-byte sockaddr_storage costs millions of variables) */
+		*(struct sockaddr_in *)out = sin; *outlen = sizeof(sin);
+		c39_psp_out[i].sin = sin; c39_psp_len[i] = sizeof(sin);
 	} else {
 		struct sockaddr_in6 sin6;
 		if (*outlen < (int)sizeof(sin6)) return -1;
@@ -123,8 +124,8 @@ int evutil_parse_sockaddr_port(const char *str, struct sockaddr *out, int *outle
 		sin6.sin6_family = AF_INET6; sin6.sin6_port = vp_u16();
 		/* two symbolic words are enough to tell addresses apart */
 		((ev_uint32_t *)&sin6.sin6_addr)[0] = vp_u32(); ((ev_uint32_t *)&sin6.sin6_addr)[3] = vp_u32();
-		memcpy(out, &sin6, sizeof(sin6)); *outlen = sizeof(sin6);
-		memcpy(&c39_psp_out[i], &sin6, sizeof(sin6)); c39_psp_len[i] = sizeof(sin6);
+		*(struct sockaddr_in6 *)out = sin6; *outlen = sizeof(sin6);
+		c39_psp_out[i].sin6 = sin6; c39_psp_len[i] = sizeof(sin6);
 	}
 	c39_psp_ok[i] = 1;
 	return 0;
@@ -502,7 +503,7 @@ void harness_resolv(void)
 		int added;
 		VP_ASSERT(c39_psp_calls == 1 && c39_text_equal(c39_psp_arg[0], copy, t.start[1], t.len[1]), "C39: nameserver line: address text differs from the reference (first argument)");
 		if (c39_psp_ok[0]) {
-			struct sockaddr_storage ex = c39_psp_out[0]; struct sockaddr *exa = (struct sockaddr *)&ex;
+			union c39_sa ex = c39_psp_out[0]; struct sockaddr *exa = &ex.sa;
 			if (exa->sa_family == AF_INET) { if (((struct sockaddr_in *)exa)->sin_port == 0) ((struct sockaddr_in *)exa)->sin_port = htons(53); }
 			else if (((struct sockaddr_in6 *)exa)->sin6_port == 0) ((struct sockaddr_in6 *)exa)->sin6_port = htons(53);
 			added = !(have_ns && c39_sa_equal((struct sockaddr *)&pre, exa, 1));
